@@ -222,6 +222,31 @@ void mon_c02(CaseCtx &c, Rng &rng){
                 if (!(std::fabs(q2[0] - s2) <= 1e4 * EPS2 * (a2 + std::fabs(s2)))) c.viol("quadrature:integrate-differs-from-weighted-sum-after-reload:" + std::string(fam_name(cfg.family)), J().num("integrate", q2[0]).num("weighted_sum", s2).obj());
             }
         }
+        // several outputs, and copies of a sub-range of the outputs: integrate() of every object equals ITS weights times ITS loaded values
+        if (c.nviol == 0 && g.getNumOutputs() > 0 && g.getNumPoints() <= 400 && rng.coin(0.35)){
+            Cfg c3 = cfg; c3.outs = 3;
+            TasmanianSparseGrid g3;
+            if (make_grid(g3, c3, go.max_points, &err) && g3.getNumPoints() > 0){
+                std::vector<double> p3 = g3.getNeededPoints();
+                g3.loadNeededValues(model_values(p3, cfg.dims, 3, 3, 1));
+                int b = rng.range(0, 2), e = rng.range(b + 1, 3);
+                TasmanianSparseGrid sub; sub.copyGrid(&g3, b, e);
+                for(TasmanianSparseGrid const *obj : {(TasmanianSparseGrid const*) &g3, (TasmanianSparseGrid const*) &sub}){
+                    int mo = obj->getNumOutputs(), nl = obj->getNumLoaded();
+                    std::vector<double> qw = obj->getQuadratureWeights(), q = obj->integrate();
+                    const double *lv = obj->getLoadedValues();
+                    for(int k=0; k<mo; k++){
+                        double sm = 0, ab = 0; for(int i=0; i<nl; i++){ double t = qw[(size_t) i] * lv[(size_t) i * (size_t) mo + (size_t) k]; sm += t; ab += std::fabs(t); }
+                        if (!(std::fabs(q[(size_t) k] - sm) <= 1e4 * EPS2 * (ab + std::fabs(sm)))){
+                            c.viol(std::string("quadrature:integrate-differs-from-weighted-sum:") + ((obj == &sub) ? "output-subrange-copy:" : "multi-output:") + fam_name(cfg.family),
+                                   J().i("output", k).i("range_begin", b).i("range_end", e).num("integrate", q[(size_t) k]).num("weighted_sum", sm).obj());
+                            break; }
+                    }
+                    c.count((obj == &sub) ? "subrange_copies_integrated" : "multi_output_grids_integrated");
+                    if (c.nviol) break;
+                }
+            }
+        }
     }catch(std::exception &e){ c.viol("quadrature:exception:" + exception_class(e), J().str("what", e.what()).obj()); return; }
     c.sig(cfg.sig() + "|" + std::to_string(cfg.depth) + (uses_alpha(cfg.rule) && cfg.family == fam_global ? "|ab" : ""));
 }
